@@ -190,6 +190,8 @@ structure PState where
   faultPct : Nat := 0
   own : List (Nat × String) := []                     -- UP SEID ↦ the node id the session belongs to, as the requests say (C05)
   hadTakeover : Bool := false
+  taken : List Nat := []                              -- sessions that were themselves taken over
+  assocPeer : List (String × Nat) := []               -- node id ↦ the peer it (last) associated from
 deriving Inhabited
 
 def eventKind (toks : List String) : String := lookD (kvs toks) "kind" (toks.headD "")
@@ -551,8 +553,32 @@ def check (ps : PState) (evLine : String) (obs : List String) (fault : Option St
     -- sessions that are gone are nobody's
     own := own.filter fun e => (d.live e.1).isSome
     return (own, fs)
+  let isTakeover := typ == "recv" && kind == "mod" && lookD m "node" "-" != "-" && !isDup && (prev.live seid).isSome
+  let taken' := if isTakeover then seid :: ps.taken.filter (· != seid) else ps.taken
+  let assocPeer' := if typ == "recv" && kind == "assoc" && !isDup && lookD m "node" "-" != "-" &&
+      (sends.any fun s => s.kind == "assocrsp" && lookD s.f "cause" "" == "1")
+    then (lookD m "node" "-", peer) :: ps.assocPeer.filter (·.1 != lookD m "node" "-") else ps.assocPeer
+  -- C10 (external): a Session Report Request goes to the control-plane node that owns the session — the address its node
+  -- id names (IPv4 node id) or the address that node associated from (IPv6 / FQDN node id)
+  let c10dest : List String := Id.run do
+    let mut fs : List String := []
+    if typ == "report" && (prev.live seid).isSome then
+      match ps.own.find? (·.1 == seid) with
+      | none => pure ()
+      | some (_, n) =>
+        -- after a takeover the node object of OTHER sessions has been renamed too (known finding takeoverNode, C05):
+        -- only sessions untouched by that, or taken over themselves, are judged
+        if !ps.hadTakeover || ps.taken.contains seid then
+          let want : Option Nat := if n.startsWith "4:p" then (n.drop 3).toString.toNat? else (ps.assocPeer.find? (·.1 == n)).map (·.2)
+          match want with
+          | none => pure ()
+          | some w =>
+            for s in sends do
+              if s.kind == "srreq" && s.peer != w then
+                fs := fs ++ [s!"C10 the Session Report Request for session {hexN seid} (node {n}) went to p{s.peer}; the node that owns the session is at p{w}"]
+    return fs
   let hadTakeover' := ps.hadTakeover || (typ == "recv" && kind == "mod" && lookD m "node" "-" != "-" && !isDup && (prev.live seid).isSome)
-  let fails := fails ++ c11fails ++ c12fails ++ c10fails ++ c05fails
+  let fails := fails ++ c11fails ++ c12fails ++ c10fails ++ c10dest ++ c05fails
   -- bookkeeping for the next event
   let cache' := if typ == "recv" && kind ∈ ["hb", "assoc", "est", "mod", "del", "other"] && !isDup then
       let rsp := (sends.filter fun s => s.kind != "srreq" && s.peer == peer).map (·.raw)
@@ -566,6 +592,6 @@ def check (ps : PState) (evLine : String) (obs : List String) (fault : Option St
   let outst0 := if typ == "recv" && (kind == "srrsp" || kind == "orsp") then ps.outst.filter (·.1 != (peer, seq)) else ps.outst
   let outst1 := if typ == "tmo" && lookD m "k" "" == "tx" && !(d.tx.any fun t => t.1 == s!"p{peer}-{seq}")
     then outst0.filter (·.1 != (peer, seq)) else outst0
-  ({ ps with prev := d, cache := cache', outst := outst1 ++ newReqs, nextSeqn := seq1, c12 := c12', own := own', hadTakeover := hadTakeover' }, fails)
+  ({ ps with prev := d, cache := cache', outst := outst1 ++ newReqs, nextSeqn := seq1, c12 := c12', own := own', hadTakeover := hadTakeover', taken := taken', assocPeer := assocPeer' }, fails)
 
 end UpfVerif.Driver.CtlProps
